@@ -1,8 +1,8 @@
 (* C16 — the column container DataFieldRecordArray behaves like a plain table under
    any operation sequence.  Statements only; every proof is `exact <lemma>`. *)
 From Coq Require Import ZArith List Bool Lia.
-From Sky Require Import Result PyList G_table M_Table S_Table P_TableBase P_TableOps P_TableOps2 P_TableOps3
-  P_TableCtor P_Table P_TableRefine P_TableThm.
+From Sky Require Import Result PyList G_table M_Table S_Table S_TableInterp P_TableBase P_TableOps P_TableOps2 P_TableOps3
+  P_TableCtor P_Table P_TableRefine P_TableThm P_TableClosed P_TableFull P_TableRows.
 Import ListNotations.
 Open Scope Z_scope.
 
@@ -159,3 +159,113 @@ Proof.
   split; [repeat constructor; cbn; repeat constructor; cbn; intuition discriminate|].
   vm_compute. repeat split; reflexivity.
 Qed.
+
+(* ================================================================================
+   FULL REFINEMENT.  S_TableInterp.v is a plain-table interpreter: tables are VALUES (named
+   columns, a length, "indices asked for"), there is no store, and a raising operation
+   returns the tables unchanged by definition.  For EVERY operation sequence the abstraction
+   of the model's final world (every live table read out of the store) is what that
+   interpreter computes, and every step has the interpreter's outcome (Done / which
+   exception / Stuck).  This composes all per-operation lemmas (constructors with
+   keep_fields / conversions / copy flag, copy, get_selection, set_selection, append,
+   append_field, __setitem__, remove_field, rename_fields incl. swaps and chains, tidy_up,
+   sort_by_field, convert_dtypes, set_field_dtype, indices). *)
+Theorem C16_full_refinement : forall ops, Forall op_wf ops ->
+  absw (run empty_world ops) = s_run [] ops
+  /\ map fst (run_obs empty_world ops) = s_outcomes [] ops.
+Proof. exact full_refinement. Qed.
+Print Assumptions C16_full_refinement.
+
+(* a raising operation (also one that raises inside numpy: index out of range, shape mismatch,
+   after some columns of a well-formed table could have been processed) changes NO table *)
+Theorem C16_failed_op_changes_nothing : forall ops p e, Forall op_wf ops -> op_wf p ->
+  let w := run empty_world ops in
+  snd (step w p) = Raised e -> absw (fst (step w p)) = absw w.
+Proof. exact failed_op_changes_nothing. Qed.
+Print Assumptions C16_failed_op_changes_nothing.
+
+(* PROGRESS: the model gets Stuck only for a table index that does not exist or an argsort
+   oracle answer that is not a sorting permutation of the key column *)
+Theorem C16_progress : forall ops p, Forall op_wf ops -> op_wf p ->
+  let w := run empty_world ops in
+  (forall t, In t (op_tables p) -> (t < length (wobjs w))%nat) -> oracle_ok (absw w) p ->
+  snd (step w p) <> Stuck.
+Proof. exact progress. Qed.
+Print Assumptions C16_progress.
+
+(* closed forms of the interpreter on well-formed sources.  Constructor / copy: filter by
+   keep_fields (None keeps everything, an EMPTY list keeps nothing), convert each kept
+   column once; no kept column gives length 0. *)
+Theorem C16_ctor_closed : forall length keep conv exc copy src,
+  (forall c, In c src -> blen (snd c) = length) -> NoDup (keys src) ->
+  v_ctor src length keep conv exc copy =
+    Ok (mkat (map (conv1 conv exc) (filter (keepc keep) src))
+             (match filter (keepc keep) src with [] => 0 | _ => length end) false).
+Proof. exact v_ctor_closed. Qed.
+Print Assumptions C16_ctor_closed.
+
+Theorem C16_keep_empty_list_keeps_nothing : forall src length conv exc copy, 0 <= length ->
+  (forall c, In c src -> blen (snd c) = length) -> NoDup (keys src) ->
+  v_ctor src length (Some []) conv exc copy = Ok (mkat [] 0 false).
+Proof. exact keep_empty_list_keeps_nothing. Qed.
+Print Assumptions C16_keep_empty_list_keeps_nothing.
+
+(* convert_dtypes decides once per column, on the dtype before the call (no chaining) *)
+Theorem C16_convert_closed : forall t conv exc,
+  s_convert t conv exc = Ok (mkat (map (conv1 conv exc) (acols t)) (alen t) (acache t)).
+Proof. exact s_convert_closed. Qed.
+Print Assumptions C16_convert_closed.
+
+Example C16_convert_not_chained :
+  s_convert (mkat [(0, mkbuf 2 [1; 2]); (1, mkbuf 3 [3; 4])] 2 false) [(2, 3); (3, 0)] []
+    = Ok (mkat [(0, mkbuf 3 [1; 2]); (1, mkbuf 0 [3; 4])] 2 false)
+  /\ s_convert (mkat [(0, mkbuf 2 [1; 2]); (1, mkbuf 3 [3; 4])] 2 false) [(3, 0); (2, 3)] []
+    = Ok (mkat [(0, mkbuf 3 [1; 2]); (1, mkbuf 0 [3; 4])] 2 false).
+Proof. exact convert_not_chained. Qed.
+
+(* the interpreter on the non-vacuity history: swap-rename, copy with keep list, failing ops *)
+Example C16_interpreter_example :
+  s_run [] ex_ops =
+    [ mkat [(1, mkbuf 0 [3; 1; 3; 1; 2; 3]); (0, mkbuf 3 [30; 10; 30; 10; 20; 30])] 6 true;
+      mkat [(0, mkbuf 0 [3; 1]); (1, mkbuf 3 [30; 10])] 2 false;
+      mkat [(1, mkbuf 3 [30; 10; 30; 10; 20; 30; 30; 10])] 8 false ]
+  /\ s_outcomes [] (ex_ops ++ [OAppend 0 2; OSetSel 0 (SIdx [9]) 1; OSetSel 0 (SIdx [9; 9]) 1; OCtorFrom 0 (Some []) [] []])
+     = [Done; Done; Done; Done; Done; Done; Done; Done; Done; Raised KeyError; Raised ValueError; Raised IndexError; Done].
+Proof. split; vm_compute; reflexivity. Qed.
+
+(* rename_fields as a SIMULTANEOUS renaming (swaps and chains included, after fix 4f30bc8):
+   whenever the result has no duplicate name, the table afterwards consists of the columns
+   that are not renamed, in their old order, followed by the renamed columns in the order of
+   the dict under their new names, each with the data it had before. *)
+Theorem C16_rename_closed : forall t conv must,
+  NoDup (anames t) -> NoDup (map fst conv) ->
+  let pres := filter (fun cv => mem (fst cv) (anames t)) conv in
+  let kept := filter (fun col => negb (mem (fst col) (map fst pres))) (acols t) in
+  NoDup (map snd pres) -> (forall n, In n (map snd pres) -> ~ In n (keys kept)) ->
+  (must = true -> forall cv, In cv conv -> mem (fst cv) (anames t) = true) ->
+  s_rename t conv must =
+    Ok (mkat (kept ++ map (fun cv => (snd cv, lookup (fst cv) (acols t))) pres) (alen t) (acache t)).
+Proof. exact s_rename_closed. Qed.
+Print Assumptions C16_rename_closed.
+
+Example C16_rename_swap_and_chain :
+  s_rename (mkat [(0, mkbuf 0 [1]); (1, mkbuf 3 [2]); (2, mkbuf 1 [3])] 1 false) [(0, 1); (1, 0)] true
+    = Ok (mkat [(2, mkbuf 1 [3]); (1, mkbuf 0 [1]); (0, mkbuf 3 [2])] 1 false)
+  /\ s_rename (mkat [(0, mkbuf 0 [1]); (1, mkbuf 3 [2]); (2, mkbuf 1 [3])] 1 false) [(1, 0); (0, 5); (9, 2)] false
+    = Ok (mkat [(2, mkbuf 1 [3]); (0, mkbuf 3 [2]); (5, mkbuf 0 [1])] 1 false).
+Proof. exact rename_swap_and_chain. Qed.
+
+(* set_selection on ROWS: a row hit by the selector becomes the source row of the LAST hit
+   (a one-row source is broadcast), every other row stays as it was. *)
+Theorem C16_set_selection_rows : forall (E Ea E' : name -> buf) names sl len alen' ps,
+  (forall n, In n names -> length (bdata (E n)) = len /\ length (bdata (Ea n)) = alen'
+                           /\ np_put (bdata (E n)) sl (bdata (Ea n)) = Ok (bdata (E' n))) ->
+  sel_pos (Z.of_nat len) sl = Ok ps ->
+  forall i, (i < len)%nat ->
+    row E' names i =
+      match last_idx ps i with
+      | Some j => row Ea names (if Nat.eqb alen' (length ps) then j else 0%nat)
+      | None => row E names i
+      end.
+Proof. exact set_selection_rows. Qed.
+Print Assumptions C16_set_selection_rows.
